@@ -233,6 +233,11 @@ class TimeInterp(PathInterp):
                             env = env.set(norm(tt), qq)
                 elif isinstance(t, ast.Name):
                     env = env.set(t.id, qv)
+                    if isinstance(value, ast.Name):
+                        # `p = q`: what is known about q's attributes (q.index ..) holds for p
+                        for n_, q_ in list(env.vars):
+                            if n_.startswith(value.id + "."):
+                                env = env.set(t.id + n_[len(value.id):], q_)
                 elif is_self_attr(t, self.frames_attr):
                     if isinstance(value, ast.List):
                         for x in value.elts:
